@@ -161,6 +161,13 @@ def _visit(mod, stats, open_keys, case, record_sample=True):
     if hasattr(mod, "classify"):
         for lab in mod.classify(case):
             stats.classes[lab] = stats.classes.get(lab, 0) + 1
+    share = getattr(mod, "CLI_SHARE", 0)
+    if share and isinstance(case, dict):
+        from vk import gen
+
+        # cases selected for the command-line tier (vk/cli.py); a module may narrow the selection further
+        if gen.pick(case, "cli", share) == 0:
+            stats.classes["command-line-tier:selected"] = stats.classes.get("command-line-tier:selected", 0) + 1
     nt = bool(mod.nontrivial(case))
     size = len(canon(case))
     if nt:
